@@ -75,7 +75,7 @@ def parse_edges(out):
 def guard_class(f, a, t):
     """(action, guard-outcome class): which branch of the manager's helpers the step takes."""
     fs, ts = json.loads(f), json.loads(t)
-    svc, mgr, leases, data, fetch, reqs, lastm, lastv = fs
+    svc, mgr, leases, data, fetch, reqs, lastm, lastv = fs[:8]
     return (a[0], svc, mgr, bool(leases), data != 0, fetch, min(len(reqs), 2), lastm != 0, lastv != 0,
             ts[3] != 0, ts[4], len(ts[5]) > len(reqs), ts[6] != lastm)
 
@@ -366,7 +366,7 @@ def sig_of(prop, steps):
 
 # ---------------------------------------------------------------------------------------------------------
 
-def selftest(recs, work):
+def selftest(recs, work, tag=""):
     """Binding self-test: corrupt one recorded field / drop one event of a real trace; TLC must reject each."""
     by = {}
     for r in recs:
@@ -387,32 +387,32 @@ def selftest(recs, work):
     g, i = pick(lambda r: r["rets"] and r["st"]["fetch"] == "idle" and r["name"] != "Shutdown")
     if g is not None:
         g[i]["rets"] = g[i]["rets"][1:]
-        v, d, _ = validate(g, work, "self-a")
+        v, d, _ = validate(g, work, tag + "self-a")
         res["drop_one_reply"] = "rejected" if any(p == "QuiescentAllReplied" for _, p in v) else "ACCEPTED"
     # (b) duplicate one reply: "at most one reply" must fail
     g, i = pick(lambda r: r["rets"])
     if g is not None:
         g[i]["rets"] = g[i]["rets"] + [g[i]["rets"][0]]
         g[i]["sends"] = g[i]["sends"] + g[i]["sends"][:1]
-        v, d, _ = validate(g, work, "self-b")
+        v, d, _ = validate(g, work, tag + "self-b")
         res["duplicate_one_reply"] = "rejected" if any(p == "AtMostOneReply" for _, p in v) else "ACCEPTED"
     # (c) an announcement of another manifest: "latest validated" must fail
     g, i = pick(lambda r: r["ann"])
     if g is not None:
         g[i]["ann"][0][1] = 1 if g[i]["ann"][0][1] != 1 else 2
-        v, d, _ = validate(g, work, "self-c")
+        v, d, _ = validate(g, work, tag + "self-c")
         res["corrupt_announced_manifest"] = "rejected" if any(p == "AnnounceOK" for _, p in v) else "ACCEPTED"
     # (d) an announcement moved to a step where no lease is held
     g, i = pick(lambda r: not r["st"]["leases"] and r["st"]["mgr"] == "run" and not r["ann"])
     if g is not None:
         g[i]["ann"] = [[1, 1]]
-        v, d, _ = validate(g, work, "self-d")
+        v, d, _ = validate(g, work, tag + "self-d")
         res["announce_without_lease"] = "rejected" if any(p == "AnnounceOK" for _, p in v) else "ACCEPTED"
     # (e) a projected state field corrupted: conformance must flag drift
     g, i = pick(lambda r: r["st"]["mgr"] == "run" and r["st"]["fetch"] == "inflight" and r["name"] == "LeaseWon")
     if g is not None:
         g[i]["st"]["fetch"] = "idle"
-        v, d, _ = validate(g, work, "self-e")
+        v, d, _ = validate(g, work, tag + "self-e")
         res["corrupt_state_field"] = "rejected" if d else "ACCEPTED"
     ok = len(res) >= 4 and all(x == "rejected" for x in res.values())
     return ok, res
@@ -603,9 +603,26 @@ def run(pid, tier, seed, replay_path):
         violations = sorted(uniq.values(), key=lambda v: (v.signature.startswith(("free:", "repotest:")), len(v.signature), v.signature))[:6]
 
         # ---- binding self-test --------------------------------------------------------------------------
-        st_ok, st_res = selftest(recs, work)
+        # The self-test is about the judging side (does TLC reject a trace with one field corrupted / one event
+        # dropped?). It runs on a trace recorded once from the unchanged tree (spec/mmanager/selftest.golden.ndjson), so
+        # that its outcome cannot depend on how the code under test behaved in this run; the same corruptions applied
+        # to this run's own trace are reported in the evidence but decide nothing.
+        golden = [json.loads(ln) for ln in open(os.path.join(SPEC_DIR, "selftest.golden.ndjson")) if ln.strip()]
+        st_err = None
+        try:
+            gv, gd, _ = validate(golden, work, "self-golden")
+            st_ok, st_res = selftest(golden, work)
+            if gv or gd:
+                st_ok, st_res = False, dict(st_res, golden_trace="not accepted as it is: %d failures, %d drift" % (len(gv), len(gd)))
+        except vlib.Inconclusive as e:
+            st_ok, st_res, st_err = False, {"error": str(e)[:300]}, e
+        try:
+            own_ok, own_res = selftest([r for r in recs if r["script"] not in suspects], work, tag="own-")
+        except Exception as e:    # noqa: BLE001 -- informational only
+            own_ok, own_res = False, {"error": str(e)[:200]}
+        st_res = dict(st_res, on_this_runs_trace=own_res)
         if not st_ok and not violations:
-            raise vlib.Inconclusive("binding self-test failed: %s" % st_res)
+            raise vlib.Inconclusive("binding self-test failed on the golden trace: %s" % st_res)
 
         # ---- J1 results -----------------------------------------------------------------------------------
         r1 = j1.result()
